@@ -544,3 +544,116 @@ class PairwiseOverlapHelper(Contract):
 
 
 REGISTRY.append(PairwiseOverlapHelper())
+
+
+class CubeOverlaps(Contract):
+    """overlap cube measures (C13 overlap variant): for a CAT x MR slice the bases of the
+    item pair (a, b) are counted over *all* row categories (the column bases of the items) and
+    repeated for every row; for MR x MR they are per row item, over its selected and other
+    answers.  selected = both items selected; valid = both items non-missing."""
+
+    props = ("C13",)
+
+    def __init__(self, mrxmr):
+        self.mrxmr = mrxmr
+        self.cls = "_MrXMrOverlaps" if mrxmr else "_CatXMrOverlaps"
+        self.name = "matrix.cubemeasure:%s.selected_bases / valid_bases" % self.cls
+
+    def size_space(self, cfg):
+        return {"R": [1, 2], "K": [1, 2, 3]}
+
+    def run(self, B, cfg):
+        R, K = B.size("R", lo=1), B.size("K", lo=1)
+        shape = (R, 2, K, 2, K) if self.mrxmr else (R, K, 2, K)
+        O = B.tensor("overlaps", shape, nonneg=True)
+        V = B.tensor("valid_overlaps", shape, nonneg=True)
+        obj = B.new("matrix.cubemeasure:%s" % self.cls, B.stub("dimensions"), O, V)
+        rd = B.rd
+        if self.mrxmr:
+            sel = lambda r, a, b: rd(O, r, 0, a, 0, b) + rd(O, r, 1, a, 0, b)  # noqa: E731
+            val = lambda r, a, b: (rd(V, r, 0, a, 0, b) + rd(V, r, 0, a, 1, b)  # noqa: E731
+                                   + rd(V, r, 1, a, 0, b) + rd(V, r, 1, a, 1, b))
+        else:
+            sel = lambda r, a, b: B.Sum(R, lambda q: rd(O, q, a, 0, b))  # noqa: E731
+            val = lambda r, a, b: B.Sum(R, lambda q: rd(V, q, a, 0, b) + rd(V, q, a, 1, b))  # noqa: E731
+        B.eq_tensor("selected_bases", obj.selected_bases, B.spec_tensor((R, K, K), sel))
+        B.eq_tensor("valid_bases", obj.valid_bases, B.spec_tensor((R, K, K), val))
+
+    def assumptions(self):
+        return ["response format (A-RESP): the overlap measure carries, per cell of the cube, the count of respondents who "
+                "also selected / were valid on item b (last axis); selection axes restricted to [selected, other]"]
+
+
+REGISTRY.append(CubeOverlaps(False))
+REGISTRY.append(CubeOverlaps(True))
+
+
+class PairwiseForSubvar(Contract):
+    """_PairwiseSigTStatsForSubvar / _PairwiseSigPValsForSubvar.blocks: every cell (row r, item
+    k) is the overlap-corrected comparison of item k with the selected item in row r; inserted
+    rows use the subtotal's column proportions with the same item bases (they are counted over
+    all categories); an MR columns dimension has no inserted columns"""
+
+    name = MOD + ":_PairwiseSigTStatsForSubvar / _PairwiseSigPValsForSubvar.blocks"
+    props = ("C13", "C04")
+    tier = "B"
+
+    def configs(self):
+        # the selected item's own p-value is a separate configuration (open finding F19)
+        return [dict(part="other-items"), dict(part="selected-item")]
+
+    def size_space(self, cfg):
+        return {"R": [1, 2], "K": [1, 2], "SR": [0, 1]}
+
+    def run(self, B, cfg):
+        R, K, SR = B.size("R", lo=1), B.size("K", lo=1), B.size("SR")
+        r_, k_, sr = int(R), int(K), int(SR)
+        P0 = B.tensor("colprops00", (R, K), maybe_nan=True)
+        P1 = B.tensor("colprops10", (SR, K), maybe_nan=True)
+        # CAT x MR: item bases are the same for every row (contract of _CatXMrOverlaps)
+        S0 = B.tensor("sel", (K, K), nonneg=True)
+        V0 = B.tensor("val", (K, K), nonneg=True)
+        S = B.spec_tensor((R, K, K), lambda r, a, b: B.rd(S0, a, b))
+        V = B.spec_tensor((R, K, K), lambda r, a, b: B.rd(V0, a, b))
+        a = B.integer("a", 0, K - 1)
+        rows = [B.stub("subtotal", addend_idxs=[0], subtrahend_idxs=[]) for _ in range(sr)]
+        dims = (B.stub("rows", subtotals=rows), B.stub("cols", subtotals=[]))
+        som = B.stub("som", column_proportions=B.stub("cp", blocks=[[P0, None], [P1, None]]))
+        cm = B.stub("cm", cube_overlaps=B.stub("ov", selected_bases=S, valid_bases=V))
+        rd = B.rd
+
+        def t_of(Pblk, x, k):
+            Sa, Sb, Sab = rd(S0, a, a), rd(S0, k, k), rd(S0, a, k)
+            Na, Nb, Nab = rd(V0, a, a), rd(V0, k, k), rd(V0, a, k)
+            pa, pb, pab = Sa / Na, Sb / Nb, Sab / Nab
+            df = Na + Nb - Nab
+            t = (rd(Pblk, x, k) - rd(Pblk, x, a)) / B.sqrt(1 / df * (pa * (1 - pa) + pb * (1 - pb) + 2 * pa * pb - 2 * pab))
+            return t, df
+
+        tb = B.new("%s:_PairwiseSigTStatsForSubvar" % MOD, dims, som, cm, a).blocks
+        pb_ = B.new("%s:_PairwiseSigPValsForSubvar" % MOD, dims, som, cm, a).blocks
+        if cfg["part"] == "selected-item":
+            for blk_i, n in ((0, R), (1, SR)):
+                B.eq_tensor("p:blocks[%d][0]:selected-item" % blk_i, pb_[blk_i][0],
+                            B.spec_tensor((n, K), lambda x, k: 1.0), care=lambda x, k: k == a)
+            return
+        for name, blocks in (("t", tb), ("p", pb_)):
+            B.check(name + ":no-inserted-columns", int(blocks[0][1].shape[1]) == 0 and int(blocks[1][1].shape[1]) == 0
+                    and int(blocks[0][1].shape[0]) == r_ and int(blocks[1][1].shape[0]) == sr)
+        for blk_i, Pblk, n in ((0, P0, R), (1, P1, SR)):
+            def tcell(x, k, Pblk=Pblk):
+                return B.ite(k == a, 0.0, t_of(Pblk, x, k)[0])
+
+            def pcell(x, k, Pblk=Pblk):
+                t, df = t_of(Pblk, x, k)
+                return B.ite(k == a, 1.0, 2 * (1 - B.Tcdf(abs(t), df - 2)))
+
+            B.eq_tensor("t:blocks[%d][0]" % blk_i, tb[blk_i][0], B.spec_tensor((n, K), tcell))
+            B.eq_tensor("p:blocks[%d][0]:other-items" % blk_i, pb_[blk_i][0], B.spec_tensor((n, K), pcell), care=lambda x, k: k != a)
+
+    def assumptions(self):
+        return ["bounded: <= 2 rows, <= 2 items, <= 1 inserted row (tier B, symbolic contents); CAT x MR shape of the overlap "
+                "bases (identical for every row: contract of _CatXMrOverlaps)"]
+
+
+REGISTRY.append(PairwiseForSubvar())
